@@ -7,7 +7,9 @@ Open Scope N_scope.
 Lemma C10_facts_ok :
   uuid_mod_shape = Known "le64(lo)%m+le64(hi)%m then %m"%string /\
   owner_fn_shape = Known "partitions[UuidMod(id, partition_count)]"%string /\
-  write_paths_via_owner_fn = Known true.
+  write_paths_via_owner_fn = Known true /\
+  (* the partition an index denotes is the catalogue entry's: the same on every node and after every restart *)
+  partitions_in_catalogue_order = Known true.
 Proof. repeat split; reflexivity. Qed.
 
 (* total and in range for every 128-bit id and every non-zero count (any uint64) *)
